@@ -158,11 +158,11 @@ Theorem C11_fitness_zip_prefix :
 Proof. intros A B. exact (@loop_is_declared_prefix A B). Qed.
 Print Assumptions C11_fitness_zip_prefix.
 
-(* single readout: the term the code computes for pair k (result restricted to the result range,
-   target restricted at construction, weight k) is the declared term *)
-Theorem C11_term_is_declared : forall c k sim tgt tr tc,
-  fc_trng c = FR2 tr tc ->
-  term_coded c (fc_w c) k sim (map (slice2 tr tc) tgt) = term_declared c k sim tgt.
+(* the term the code computes for pair k (result restricted to the result range, target restricted at
+   construction with the 2-D or 3-D target range, weight k restricted likewise) is the declared term *)
+Theorem C11_term_is_declared : forall c k sim tgt,
+  term_coded c (fc_w c) k sim (let '(tm, tr, tc) := out_slices (fc_trng c) in slice3 tm tr tc tgt)
+  = term_declared c k sim tgt.
 Proof. exact term_coded_is_declared. Qed.
 Print Assumptions C11_term_is_declared.
 
@@ -176,16 +176,17 @@ Definition ex_conf (multi : bool) : fconf :=
      fc_tgts := [ [ [[Some 0]]; [[Some 0]] ] ]; fc_bypass := false |}.
 Definition ex_sims : list frame3 := [ [ [[Some 1]]; [[Some 1]] ] ].
 
-(* the problem object as a whole (2-D target range, no target left without a processor; single- and
-   multi-readout targets, no weights / scalar weights / weight files alike): whenever problem.fitness
-   yields anything at all, it is the declared figure of merit — the configured function applied to
-   result[result range] and target[target range] with the weight of pair k, summed over ALL targets *)
-Theorem C11_fitness_is_declared : forall c sims tr tc,
-  fc_trng c = FR2 tr tc -> (length (fc_tgts c) <= length sims)%nat ->
+(* the problem object as a whole (2-D and 3-D target ranges, single- and multi-readout targets, no
+   weights / scalar weights / weight files alike; no target left without a processor): whenever
+   problem.fitness yields anything at all, it is the declared figure of merit — the configured
+   function applied to result[result range] and target[target range] with the weight of pair k,
+   summed over ALL targets *)
+Theorem C11_fitness_is_declared : forall c sims,
+  (length (fc_tgts c) <= length sims)%nat ->
   model_fit src_checker src_calls src_weights c sims = OCtor \/
   model_fit src_checker src_calls src_weights c sims = OUndef \/
   model_fit src_checker src_calls src_weights c sims = fobs_of (declared_sum (term_declared c) sims (fc_tgts c)).
-Proof. rewrite C11_src_weights_are_coded. intros c sims tr tc. apply model_fit_is_declared. Qed.
+Proof. rewrite C11_src_weights_are_coded. intros c sims. apply model_fit_is_declared. Qed.
 Print Assumptions C11_fitness_is_declared.
 
 (* multi-readout target with a scalar weight 3: value 3 * 2 (the weights used to be dropped: 2);
@@ -195,6 +196,20 @@ Example C11_fitness_is_declared_nonvacuous :
   spec_fit (ex_conf true) ex_sims = Some (OVal (6 # 1)) /\
   model_fit src_checker src_calls src_weights (ex_conf true) ex_sims = OVal (6 # 1) /\
   fobs_agree true (model_fit src_checker src_calls legacy_wconf (ex_conf true) ex_sims) (OVal (2 # 1)) = true.
+Proof. vm_compute. auto. Qed.
+
+(* a 3-D target range on a time-domain target (readout times 1..3 of the target against 0..2 of the
+   result): |3-1| + |5-2| = 5; before the repair no 6-value target range could be used at all *)
+Example C11_fitness_is_declared_3d :
+  let c := {| fc_ff := FAbs; fc_multi := true;
+              fc_trng := FR3 (Some 1, Some 3)%Z (Some 0, Some 1)%Z (Some 0, Some 1)%Z;
+              fc_orng := FR3 (Some 0, Some 2)%Z (Some 0, Some 1)%Z (Some 0, Some 1)%Z;
+              fc_drows := 1%Z; fc_dcols := 1%Z; fc_w := WNone;
+              fc_tgts := [ [ [[Some 9]]; [[Some 3]]; [[Some 5]] ] ]; fc_bypass := false |} in
+  let sims := [ [ [[Some 1]]; [[Some 2]]; [[Some 7]] ] ] in
+  model_fit src_checker src_calls src_weights c sims = OVal (5 # 1) /\
+  spec_fit c sims = Some (OVal (5 # 1)) /\
+  model_fit src_checker src_calls legacy_wconf c sims = OCtor.
 Proof. vm_compute. auto. Qed.
 
 Example C11_fitness_is_sum_nonvacuous :
